@@ -209,6 +209,21 @@ func syncPrograms() []syncProgram {
 			}
 			return "close=" + codeName(s.Close())
 		}},
+		syncProgram{"bidi-context-over-at-first-send", "bidi", true, func() http.Handler {
+			return connect.NewBidiStreamHandler("/s/m", func(ctx context.Context, s *connect.BidiStream[[]byte, []byte]) error {
+				return nil
+			}, raw)
+		}, func(hc connect.HTTPClient, url, proto string) string {
+			cl := connect.NewClient[[]byte, []byte](hc, url, protoOpts(proto)...)
+			ctx, cancel := context.WithCancel(context.Background())
+			cancel()
+			s := cl.CallBidiStream(ctx)
+			e1 := s.Send(&[]byte{1})
+			_, e2 := s.Receive() // before the request side is closed
+			e3 := s.CloseRequest()
+			_ = s.CloseResponse()
+			return fmt.Sprintf("send=%s receive=%s closerequest=%s", codeName(e1), codeName(e2), codeName(e3))
+		}},
 		syncProgram{"transport-fails", "unary", true, nil, func(_ connect.HTTPClient, url, proto string) string {
 			return unaryC(failDo{}, "http://127.0.0.1:9/s/m", proto)
 		}},
